@@ -54,8 +54,13 @@ SPACES = {
         # needs 4 vertices and 4 links
         (dict(nv=4, maxl=4, minl=4, classes=("D",), self_loops=False),
          dict(variants=("Vertex",), unis="none-only", labels="-A")),
+        # many links over two pairs (the explicit stack / queue grows beyond any small multiple of |V|)
+        (dict(nv=3, maxl=8, minl=5, classes=("D",), pairs=[(0, 1), (0, 2)]),
+         dict(variants=("Vertex",), unis="all-minus-one", labels="-A")),
     ],
     "thorough": [
+        (dict(nv=3, maxl=10, minl=5, classes=("D",), pairs=[(0, 1), (0, 2), (1, 2)]),
+         dict(variants=("Vertex",), unis="all-minus-one", labels="-A")),
         (dict(nv=3, maxl=3, classes=("D", "U", "Ds")),
          dict(variants=("Vertex", "FalsyBool", "FalsyLen"), unis="all-subsets", labels="-AZN")),
         (dict(nv=4, maxl=3, minl=3, classes=("D", "U")),
